@@ -1151,6 +1151,55 @@ def translate(repo):
           "Definition src_accept_loop : list acc_stmt := [\n  %s]." % ";\n  ".join(acc), ""]
 
 
+    # ---- src/lib.rs: HttpServerBuilder::spawn -- the handler adaptor (a panic becomes a response), the wiring of the
+    #      connection task, the size of the token set, the task that runs accept_loop and then reports "stopped"
+    sp = None
+    try:
+        lsrc = read(repo, "src/lib.rs")
+        raw = fn_body(lsrc, "pub async fn spawn<F>")
+        t, i, in_str = "", 0, False
+        while i < len(raw):
+            ch = raw[i]
+            if in_str:
+                t += ch
+                if ch == "\\":
+                    t += raw[i + 1]; i += 1
+                elif ch == '"':
+                    in_str = False
+            elif ch == '"':
+                in_str = True; t += ch
+            elif not ch.isspace():
+                t += ch
+            i += 1
+        m = re.fullmatch(
+            r"letasync_request_handler=\|req:Request\|asyncmove\{letrequest_handler_clone=request_handler\.clone\(\);"
+            r"safina::executor::schedule_blocking\(move\|\|request_handler_clone\(req\)\)\.await\.unwrap_or_else\(\|_\|Response::text\((\d+),\"((?:[^\"\\]|\\.)*)\"\)\)\};"
+            r"letconn_handler=move\|permit,token,stream:async_net::TcpStream,addr\|\{lethttp_conn=HttpConn::new\(addr,stream\);"
+            r"safina::executor::spawn\(handle_http_conn\(permit,token,http_conn,self\.opt_cache_dir,self\.small_body_len,async_request_handler,\)\);\};"
+            r"letlistener=TcpListener::bind\(self\.listen_addr\)\.await\?;letaddr=listener\.local_addr\(\)\?;"
+            r"lettoken_set=TokenSet::new\(self\.max_conns\);let\(sender,receiver\)=safina::sync::oneshot\(\);"
+            r"safina::executor::spawn\(asyncmove\{(.*)\}\);Ok\(\(addr,receiver\)\)", t)
+        if not m:
+            raise ValueError("shape of spawn")
+        task, r = [], m.group(3)
+        while r:
+            if r.startswith("accept_loop(self.permit,listener,token_set,conn_handler).await;"):
+                task.append("SSAcceptLoop"); r = r[len("accept_loop(self.permit,listener,token_set,conn_handler).await;"):]
+            elif r.startswith("let_ignored=sender.send(());"):
+                task.append("SSSendStopped"); r = r[len("let_ignored=sender.send(());"):]
+            else:
+                raise ValueError("spawned task statement %r" % r[:60])
+        sp = (int(m.group(1)), rust_unescape(m.group(2)), task)
+    except Exception as e:   # noqa
+        P.append("src/lib.rs spawn: cannot translate (%s)" % e)
+        sp = (0, b"", [])
+    L += ["(* src/lib.rs HttpServerBuilder::spawn: what a panicking handler is turned into; the statements of the task that runs",
+          "   accept_loop (the rest -- TokenSet::new(self.max_conns), the arguments of handle_http_conn -- is checked for shape) *)",
+          "Definition src_panic_status : N := %d." % sp[0],
+          "Definition src_panic_text : list N := %s." % coq_bytes(sp[1]),
+          "Definition src_spawn_task : list spawn_stmt := [%s]." % "; ".join(sp[2]), ""]
+
+
     # ---- src/token_set.rs: TokenSet::new, the three ways to take a token, Token::drop -- statement by statement
     tk = dict(new=[], drop=[], takes=[])
     try:
@@ -1320,7 +1369,7 @@ def translate(repo):
     items = [("chunk", "src/util.rs"), ("event_queue", "src/response.rs event_stream"), ("conn_buf", "src/http_conn.rs HttpConn.buf"), ("conn_guards", "src/http_conn.rs state guards"),
              ("time", "src/time.rs"), ("content_type", "src/content_type.rs"), ("log_prio", "src/log/logger.rs log()"),
              ("event_fmt", "src/event.rs"), ("regex", "src/head.rs: cannot translate the regex"), ("cookie", "src/cookie.rs"), ("request", "src/request.rs"),
-             ("json", "src/log/tag_value.rs"), ("jsonl", "src/log/logger.rs write_jsonl"), ("writer", "src/log/log_file_writer.rs"), ("headers", "src/headers.rs"), ("pfs", "src/log/prefix_file_set.rs"), ("token_set", "src/token_set.rs"), ("write_response", "src/http_conn.rs write_response"), ("conn_loop", "src/http_conn.rs handle_http_conn"), ("resp_head", "src/response.rs write_http_response"), ("accept", "src/accept.rs accept_loop"), ("try_read", "src/head.rs try_read"), ("read_body", "src/http_conn.rs read_body"), ("read_head", "src/head.rs read_http_head")]
+             ("json", "src/log/tag_value.rs"), ("jsonl", "src/log/logger.rs write_jsonl"), ("writer", "src/log/log_file_writer.rs"), ("headers", "src/headers.rs"), ("pfs", "src/log/prefix_file_set.rs"), ("token_set", "src/token_set.rs"), ("write_response", "src/http_conn.rs write_response"), ("conn_loop", "src/http_conn.rs handle_http_conn"), ("resp_head", "src/response.rs write_http_response"), ("accept", "src/accept.rs accept_loop"), ("try_read", "src/head.rs try_read"), ("read_body", "src/http_conn.rs read_body"), ("read_head", "src/head.rs read_http_head"), ("spawn", "src/lib.rs spawn")]
     L.append("(* what the translator could not read, per item (0 everywhere = the translation is complete) *)")
     for key, prefix in items:
         L.append("Definition src_problems_%s : nat := %d." % (key, sum(1 for p in P if p.startswith(prefix))))
